@@ -51,6 +51,11 @@ def _pre(env):
 class Modify(Contract):
     file, qualname = FILE, "SpatiallyAdaptiveSingleDimensions2.modify_according_to_levelvec"
 
+    def __init__(self, lmin_is_property=False):
+        # "never below lmin" keeps the exactness of the initial scheme: a clause of C04's statement, not of C03's (a family of 1-D point sets that
+        # starts below lmin is still sorted, nested and level-determined) -> property clause under C04, auxiliary under C03
+        self.lmin_is_property = lmin_is_property
+
     def inputs(self, S):
         return _inputs(S)[1]
 
@@ -68,7 +73,7 @@ class Modify(Contract):
         l = z3.Select(old["levelvec"].arr, d)
         lmin, lmax = z3.Select(s.fields["lmin"].arr, d), z3.Select(s.fields["lmax"].arr, d)
         r = result
-        return [Cl("never-below-lmin", l - r >= lmin, prop=True),           # coarsening never goes below what the initial scheme contained (C03/C04)
+        return [Cl("never-below-lmin", l - r >= lmin, prop=self.lmin_is_property),           # coarsening never goes below what the initial scheme contained (C04)
                 Cl("never-above-level", z3.And(r >= 0, l - r <= l), prop=True),
                 Cl("equals-spec", r == spec_modify(old["subtraction_value"], l, old["max_level"], lmin, lmax)),
                 Cl("levelvec-untouched", env["levelvec"].arr == old["levelvec"].arr),
